@@ -3,7 +3,7 @@ CONSTANTS
   NMsgs = 5
   Kinds <- KindsFull
   Styles <- StylesFull
-  CapAlphabet = {0, 1, 2}
+  CapAlphabet = {0, 2}
   DropChoices <- DropsUpTo4
   H = 1
   PStalls = {0}
